@@ -129,7 +129,7 @@ RXV_SUBCOMMAND(selftest) {
 		mdl::Blake2b b; b.init(outlen, key.data(), keylen);
 		size_t off = 0; while (off < len) { size_t n = 1 + rng.below(200); if (n > len - off) n = len - off; b.update(msg.data() + off, n); off += n; }
 		uint8_t dg[64]; b.final(dg);
-		uint8_t one[64]; mdl::blake2b(one, outlen, msg.data(), len, key.data(), keylen);
+		uint8_t one[64]; mdl::b2b(one, outlen, msg.data(), len, key.data(), keylen);
 		if (memcmp(dg, one, outlen)) R.violation("model:blake2b:chunking", "{}");
 		lines += "{\"type\":\"blake\",\"msg\":\"" + hex(msg.data(), len) + "\",\"key\":\"" + hex(key.data(), keylen) + "\",\"outlen\":" + std::to_string(outlen) + ",\"digest\":\"" + hex(dg, outlen) + "\"}\n";
 		R.evaluation();
